@@ -302,6 +302,8 @@ class Model:
         self._load_marks()
         self._load_offsets()
         self.snap = []          # [(time, snapshot)]
+        self._perm = False
+        self.tolerated = []
         self.time0 = None
         self.last_time = None
         self.nevents = 0
@@ -437,7 +439,18 @@ class Model:
             return ("reject", {"stage": "finish", "why": r.why})
         return ("accept", None)
 
-    def apply(self, sidx, e, ctime=None):
+    def _bad(self, why):
+        """A guard of the documented model is violated.  Strict mode: reject.
+        Permissive mode (used only by generators to build a plausible
+        continuation *after* an illegal event): remember it and let the caller
+        apply the event's natural effect."""
+        if self._perm:
+            self.tolerated.append(why)
+            return
+        raise Reject("event", why)
+
+    def apply(self, sidx, e, ctime=None, permissive=False):
+        self._perm = permissive
         mcv, clock, phex, jumbo = e[0], e[1], e[2], e[3]
         payload = bytes.fromhex(phex)
         th = self.by_stream[sidx]
@@ -481,7 +494,7 @@ class Model:
         """Checked *before* any mutation so that a rejected event leaves the
         model untouched (apply is transactional)."""
         if not cpu.virtual and sum(1 for t in cpu.threads if t.state == ST_RUNNING) + extra > 1:
-            raise Reject("event", "physical CPU oversubscribed")
+            self._bad("physical CPU oversubscribed")
 
     def _push(self, th, key, val, nodup=True):
         st = th.q[key]
@@ -494,13 +507,16 @@ class Model:
     def _pop(self, th, key, val):
         st = th.q[key]
         if not st or st[-1] != val:
-            raise Reject("event", "pop mismatch")
+            self._bad("pop mismatch")
+            if st:
+                st.pop()
+            return
         st.pop()
 
     # -- ovni model -------------------------------------------------------------
     def _ev_ovni(self, th, mcv, payload, jumbo):
         if th.out_of_cpu:
-            raise Reject("event", "thread out of CPU")
+            self._bad("thread out of CPU")
         c, v = mcv[1], mcv[2]
         if c == "H":
             self._ev_thread(th, v, payload)
@@ -511,12 +527,12 @@ class Model:
         elif c == "F":
             if v == "[":
                 if th.flushing:
-                    raise Reject("event", "nested flush")
+                    self._bad("nested flush")
                 th.flushing = True
                 th.q[("O", "flush")] = L("Flushing")
             elif v == "]":
                 if not th.flushing:
-                    raise Reject("event", "flush end without begin")
+                    self._bad("flush end without begin")
                 th.flushing = False
                 th.q[("O", "flush")] = None
             else:
@@ -533,38 +549,52 @@ class Model:
         if v == "x":
             if s == ST_DEAD:
                 raise Reject("unclaimed", "execute on a dead thread")
-            if s != ST_UNKNOWN:
-                raise Reject("event", "execute: thread already started")
             if len(payload) < 4:
                 raise Reject("event", "execute without payload")
             (idx,) = struct.unpack_from("<i", payload, 0)
             cpu = self._cpu(th.proc.loom, idx)
+            if s != ST_UNKNOWN:
+                self._bad("execute: thread already started")
+                if th.cpu is not None:
+                    th.cpu.threads.remove(th)
+                    th.cpu = None
             self._check_cpu(cpu, +1)
             th.cpu = cpu
             th.state = ST_RUNNING
             cpu.threads.append(th)
         elif v == "e":
             if s not in (ST_RUNNING, ST_COOLING):
-                raise Reject("event", "end: bad state")
+                if th.cpu is None:
+                    raise Reject("event", "end: thread has no CPU")
+                self._bad("end: bad state")
             th.state = ST_DEAD
             th.cpu.threads.remove(th)
             th.cpu = None
         elif v == "p":
             if s not in (ST_RUNNING, ST_COOLING):
-                raise Reject("event", "pause: bad state")
+                if th.cpu is None:
+                    raise Reject("event", "pause: thread has no CPU")
+                self._bad("pause: bad state")
             th.state = ST_PAUSED
         elif v == "r":
             if s not in (ST_PAUSED, ST_WARMING):
-                raise Reject("event", "resume: bad state")
-            self._check_cpu(th.cpu, +1)
+                if th.cpu is None:
+                    raise Reject("event", "resume: thread has no CPU")
+                self._bad("resume: bad state")
+            if s != ST_RUNNING:
+                self._check_cpu(th.cpu, +1)
             th.state = ST_RUNNING
         elif v == "c":
             if s != ST_RUNNING:
-                raise Reject("event", "cool: bad state")
+                if th.cpu is None:
+                    raise Reject("event", "cool: thread has no CPU")
+                self._bad("cool: bad state")
             th.state = ST_COOLING
         elif v == "w":
             if s != ST_PAUSED:
-                raise Reject("event", "warm: bad state")
+                if th.cpu is None:
+                    raise Reject("event", "warm: thread has no CPU")
+                self._bad("warm: bad state")
             th.state = ST_WARMING
         elif v == "C":
             return
@@ -641,15 +671,15 @@ class Model:
     def _gate(self, th, m):
         if m in ("D", "M", "T", "P"):
             if th.state != ST_RUNNING:
-                raise Reject("event", "thread not running")
+                self._bad("thread not running")
         elif m == "6":
             if th.state not in ACTIVE:
-                raise Reject("event", "thread not active")
+                self._bad("thread not active")
         elif m == "V":
             if th.state not in ACTIVE:
-                raise Reject("event", "thread not active")
+                self._bad("thread not active")
             if th.out_of_cpu:
-                raise Reject("event", "thread out of CPU")
+                self._bad("thread out of CPU")
 
     def _region(self, th, mcv):
         r = regions().get(mcv)
@@ -770,18 +800,18 @@ class Model:
             body = task.bodies.get(bid)
             if body is None:
                 if "parallel" not in task.flags and task.bodies:
-                    raise Reject("event", "second body of non-parallel task")
+                    self._bad("second body of non-parallel task")
                 body = Body(task, bid)
                 new_body = True
             else:
                 new_body = False
             if body.state == "dead":
                 if "resurrect" not in task.flags:
-                    raise Reject("event", "task cannot run again")
+                    self._bad("task cannot run again")
             elif body.state != "created":
                 raise Reject("event", "execute: body is %s" % body.state)
             if top is not None and top.state == "running" and "relax" not in top.task.flags:
-                raise Reject("event", "nesting over a running body")
+                self._bad("nesting over a running body")
             # subsystem side effect: enters the task body region
             self._push(th, ssq, body_label, nodup=(m == "6"))
             if new_body:
@@ -794,10 +824,10 @@ class Model:
             if body is None:
                 raise Reject("event", "no such body")
             if v == "p":
-                if "pause" not in task.flags:
-                    raise Reject("event", "task cannot pause")
                 if body.state != "running" or body.thread is not th or top is not body:
                     raise Reject("event", "pause: not the running top body of this thread")
+                if "pause" not in task.flags:
+                    self._bad("task cannot pause")
                 body.state = "paused"
             elif v == "r":
                 if body.state != "paused" or body.thread is not th or top is not body:
